@@ -61,13 +61,17 @@ impl DataItem for DateItem {
         let mut date = self.0;
         let mut duration = other.as_any().downcast_ref::<DurationItem>()?.get_duration();
 
+        /* Year and month are calculated first and the date is built once, the date between the year and the month step may not exist (29/2/2020 + 13 months) */
+        let mut year = date.year();
+
         match operation_type {
             OperationType::Add => {
+                let mut month0 = date.month0();
+
                 match self.get_year_from_duration(duration) {
                     0 => (),
                     n => {
-                        let years_diff = date.year().checked_add(i32::try_from(n).ok()?)?;
-                        date     = NaiveDate::from_ymd_opt(years_diff, date.month() as u32, date.day())?;
+                        year     = year.checked_add(i32::try_from(n).ok()?)?;
                         duration = Duration::seconds(duration.num_seconds() - (YEAR * n))
                     }
                 };
@@ -76,22 +80,24 @@ impl DataItem for DateItem {
                     0 => (),
                     n => {
                         /* Months are counted from zero, otherwise a sum of 12 would be month 0 of the next year instead of december */
-                        let total_month = date.month0() + n as u32;
-                        let years_diff = total_month / 12;
-                        let month = (total_month % 12) + 1;
-                        date     = NaiveDate::from_ymd_opt(date.year().checked_add(years_diff as i32)?, month as u32, date.day())?;
+                        let total_month = month0 + n as u32;
+                        year     = year.checked_add((total_month / 12) as i32)?;
+                        month0   = total_month % 12;
                         duration = Duration::seconds(duration.num_seconds() - (MONTH * n))
                     }
                 };
+
+                date = NaiveDate::from_ymd_opt(year, month0 + 1, date.day())?;
                 Some(Rc::new(DateItem(date.checked_add_signed(duration)?, self.1.clone())))
             },
 
             OperationType::Sub => {
+                let mut month = date.month() as i32;
+
                 match self.get_year_from_duration(duration) {
                     0 => (),
                     n => {
-                        let years_diff = date.year().checked_sub(i32::try_from(n).ok()?)?;
-                        date     = NaiveDate::from_ymd_opt(years_diff, date.month() as u32, date.day())?;
+                        year     = year.checked_sub(i32::try_from(n).ok()?)?;
                         duration = Duration::seconds(duration.num_seconds() - (YEAR * n))
                     }
                 };
@@ -99,16 +105,17 @@ impl DataItem for DateItem {
                 match self.get_month_from_duration(duration) {
                     0 => (),
                     n => {
-                        let years = date.year() - (n as i32 / 12);
-                        let mut months = date.month() as i32 - (n as i32 % 12);
-                        if months <= 0 {
-                            months += 12;
+                        year   = year.checked_sub(n as i32 / 12)?;
+                        month -= n as i32 % 12;
+                        if month <= 0 {
+                            month += 12;
                         }
 
-                        date = NaiveDate::from_ymd_opt(years as i32, months as u32, date.day())?;
                         duration = Duration::seconds(duration.num_seconds() - (MONTH * n))
                     }
                 };
+
+                date = NaiveDate::from_ymd_opt(year, month as u32, date.day())?;
                 Some(Rc::new(DateItem(date.checked_sub_signed(duration)?, self.1.clone())))
             },
             _ => None
